@@ -37,6 +37,7 @@ func init() {
 		{Prop: "C17", Pkg: L, Dir: "c17", Func: "VH_C17_UvarintTotal", Aux: true, Params: map[string]int{"N": 10}, Reach: []string{"uvarinttotal/done"}},
 		{Prop: "C17", Pkg: L, Dir: "c17", Func: "VH_C17_EncStep", Aux: true, Params: map[string]int{"MAXEXTRA": 1}, Reach: []string{"encstep/done"}},
 		{Prop: "C17", Pkg: L, Dir: "c17", Func: "VH_C17_Duality", Aux: true, Reach: []string{"duality/done"}},
+		{Prop: "C17", Pkg: L, Dir: "c17", Func: "VH_C17_ShiftLowLong", Aux: true, Reach: []string{"shiftlong/done"}, Cfg: big},
 	}
 	register(p)
 }
